@@ -333,4 +333,399 @@ theorem windowExp_rel (ep : List Nat) (hl : Limbs ep) (hne : ep ≠ []) (htop : 
 
 end Window
 
+
+/-! ### mpn_sub (kernel model)
+
+Note: these are proved with the `induction` tactic, not by equation-compiler recursion: a recursive
+theorem whose statement mentions `u + B - v` makes the kernel unfold `u + 2^64` when it checks the
+structural recursion. -/
+
+theorem subNC_cons (u v cy : Nat) (us vs : List Nat) :
+    subNC (u :: us) (v :: vs) cy =
+      ((((u + B - v) % B + B - cy) % B) :: (subNC us vs (boolToNat (decide ((u + B - v) % B > u)) ||| boolToNat (decide (((u + B - v) % B + B - cy) % B > (u + B - v) % B)))).1,
+       (subNC us vs (boolToNat (decide ((u + B - v) % B > u)) ||| boolToNat (decide (((u + B - v) % B + B - cy) % B > (u + B - v) % B)))).2) := by
+  rw [subNC]
+
+/-- one limb of sub_n: the C's borrow tests compute the true borrow -/
+theorem sub_limb (u v cy : Nat) (hu : u < B) (hv : v < B) (hc : cy ≤ 1) :
+    ((u + B - v) % B + B - cy) % B + v + cy
+      = u + B * (boolToNat (decide ((u + B - v) % B > u)) ||| boolToNat (decide (((u + B - v) % B + B - cy) % B > (u + B - v) % B))) ∧
+    (boolToNat (decide ((u + B - v) % B > u)) ||| boolToNat (decide (((u + B - v) % B + B - cy) % B > (u + B - v) % B))) ≤ 1 ∧
+    ((u + B - v) % B + B - cy) % B < B := by
+  rw [lor_bool]
+  simp only [B_eq] at *
+  split <;> omega
+
+theorem subNC_val (u : List Nat) : ∀ (v : List Nat) (cy : Nat), Limbs u → Limbs v → u.length = v.length → cy ≤ 1 →
+    val (subNC u v cy).1 + val v + cy = val u + B ^ u.length * (subNC u v cy).2 ∧
+    (subNC u v cy).2 ≤ 1 ∧ Limbs (subNC u v cy).1 ∧ (subNC u v cy).1.length = u.length := by
+  induction u with
+  | nil =>
+    intro v cy _ _ hl hc
+    cases v with
+    | nil => simp [subNC, hc, Limbs_nil]
+    | cons _ _ => simp at hl
+  | cons u us ih =>
+    intro v cy hu hv hl hc
+    cases v with
+    | nil => simp at hl
+    | cons v vs =>
+      have ⟨hu0, hus⟩ := Limbs_cons.mp hu
+      have ⟨hv0, hvs⟩ := Limbs_cons.mp hv
+      have ⟨e, c1, r1⟩ := sub_limb u v cy hu0 hv0 hc
+      obtain ⟨ihv, ihc, ihl, ihn⟩ := ih vs _ hus hvs (by simpa using hl) c1
+      rw [subNC_cons]
+      simp only [val_cons, List.length_cons, pow_succ]
+      refine ⟨?_, ihc, Limbs_cons.mpr ⟨r1, ihl⟩, by rw [ihn]⟩
+      generalize (boolToNat (decide ((u + B - v) % B > u)) ||| boolToNat (decide (((u + B - v) % B + B - cy) % B > (u + B - v) % B))) = c at *
+      generalize ((u + B - v) % B + B - cy) % B = rl at *
+      generalize (subNC us vs c) = res at *
+      have h2 : B * (val res.1 + val vs + c) = B * (val us + B ^ us.length * res.2) := by rw [ihv]
+      linarith [h2, e]
+
+theorem decr_cons (x : Nat) (xs : List Nat) :
+    decr (x :: xs) = if x < 1 then ((x + B - 1) % B :: (decr xs).1, (decr xs).2) else ((x + B - 1) % B :: xs, 0) := by
+  rw [decr]
+
+theorem decr_val (x : List Nat) : Limbs x →
+    val (decr x).1 + 1 = val x + B ^ x.length * (decr x).2 ∧ (decr x).2 ≤ 1 ∧
+    Limbs (decr x).1 ∧ (decr x).1.length = x.length := by
+  induction x with
+  | nil => intro _; simp [decr, Limbs_nil]
+  | cons x xs ih =>
+    intro h
+    have ⟨hx, hxs⟩ := Limbs_cons.mp h
+    rw [decr_cons]
+    by_cases h0 : x < 1
+    · have hx0 : x = 0 := by omega
+      subst hx0
+      obtain ⟨iv, ic, il, iln⟩ := ih hxs
+      simp only [Nat.lt_one_iff, if_true, val_cons, List.length_cons, pow_succ]
+      have hm : (0 + B - 1) % B = B - 1 := by simp only [B_eq]
+      rw [hm]
+      refine ⟨?_, ic, Limbs_cons.mpr ⟨by have := B_pos; omega, il⟩, by rw [iln]⟩
+      have hB := B_pos
+      generalize decr xs = res at *
+      have h2 : B * (val res.1 + 1) = B * (val xs + B ^ xs.length * res.2) := by rw [iv]
+      have h3 : B - 1 + 1 = B := by omega
+      linarith [h2, h3]
+    · simp only [h0, if_false, val_cons, List.length_cons]
+      have hm : (x + B - 1) % B = x - 1 := by simp only [B_eq] at *; omega
+      rw [hm]
+      exact ⟨by omega, by omega, Limbs_cons.mpr ⟨by omega, hxs⟩, by simp⟩
+
+/-- mpn_sub (xsize ≥ ysize): value identity with the returned borrow. -/
+theorem sub_val (x y : List Nat) (hx : Limbs x) (hy : Limbs y) (hlen : y.length ≤ x.length) :
+    val (sub x y).1 + val y = val x + B ^ x.length * (sub x y).2 ∧ (sub x y).2 ≤ 1 ∧
+    Limbs (sub x y).1 ∧ (sub x y).1.length = x.length := by
+  have htl : (x.take y.length).length = y.length := by rw [List.length_take]; omega
+  obtain ⟨sv, sc, sl, sn⟩ := subNC_val (x.take y.length) y 0 (Limbs_take hx _) hy htl (by omega)
+  have hsplit := val_take_drop x y.length hlen
+  have hdl : (x.drop y.length).length = x.length - y.length := List.length_drop
+  rw [htl] at sv sn
+  have hp : B ^ x.length = B ^ y.length * B ^ (x.length - y.length) := by
+    rw [← pow_add]; congr 1; omega
+  have hdef : sub x y = if (subNC (x.take y.length) y 0).2 != 0
+      then ((subNC (x.take y.length) y 0).1 ++ (decr (x.drop y.length)).1, (decr (x.drop y.length)).2)
+      else ((subNC (x.take y.length) y 0).1 ++ x.drop y.length, 0) := by
+    unfold sub sub_n; rfl
+  rw [hdef]
+  generalize subNC (x.take y.length) y 0 = lo at *
+  obtain ⟨lo1, cy⟩ := lo
+  simp only at sv sc sl sn ⊢
+  by_cases hc : cy = 0
+  · subst hc
+    have hif : ((0 : Nat) != 0) = false := rfl
+    simp only [hif, Bool.false_eq_true, if_false, val_append, sn]
+    refine ⟨by omega, by omega, Limbs_append.mpr ⟨sl, Limbs_drop hx _⟩, ?_⟩
+    rw [List.length_append, sn, hdl]; omega
+  · have hc1 : cy = 1 := by omega
+    subst hc1
+    obtain ⟨dv, dc, dl, dn⟩ := decr_val (x.drop y.length) (Limbs_drop hx _)
+    generalize decr (x.drop y.length) = hi at *
+    obtain ⟨hi1, c⟩ := hi
+    have hif : ((1 : Nat) != 0) = true := rfl
+    simp only [hif, if_true, val_append, sn] at dv dc dl dn ⊢
+    refine ⟨?_, dc, Limbs_append.mpr ⟨sl, dl⟩, ?_⟩
+    · rw [hdl] at dv
+      rw [hp]
+      generalize B ^ y.length = P at *
+      generalize B ^ (x.length - y.length) = Q at *
+      have h2 : P * (val hi1 + 1) = P * (val (x.drop y.length) + Q * c) := by rw [dv]
+      linarith [sv, h2, hsplit]
+    · rw [List.length_append, sn, dn, hdl]; omega
+
+/-- mpn_sub with `y ≤ x`: no borrow, the result is the difference. -/
+theorem sub_exact (x y : List Nat) (hx : Limbs x) (hy : Limbs y) (hlen : y.length ≤ x.length)
+    (hle : val y ≤ val x) :
+    val (sub x y).1 = val x - val y ∧ Limbs (sub x y).1 ∧ (sub x y).1.length = x.length := by
+  obtain ⟨hv, hc, hl, hn⟩ := sub_val x y hx hy hlen
+  refine ⟨?_, hl, hn⟩
+  have hlt := val_lt _ hl
+  rw [hn] at hlt
+  have hxl := val_lt x hx
+  by_cases h0 : (sub x y).2 = 0
+  · rw [h0] at hv; omega
+  · have h1 : (sub x y).2 = 1 := by omega
+    rw [h1] at hv; omega
+
+
+/-! ### natLimbs, toLimbs, normal form -/
+
+theorem natLimbs_zero : natLimbs 0 = [] := by rw [natLimbs]; simp
+
+theorem natLimbs_pos (v : Nat) (h : v ≠ 0) : natLimbs v = v % B :: natLimbs (v / B) := by
+  rw [natLimbs]; simp [h]
+
+theorem natLimbs_eq_nil (v : Nat) : natLimbs v = [] ↔ v = 0 := by
+  constructor
+  · intro h; by_contra h0; rw [natLimbs_pos v h0] at h; simp at h
+  · intro h; rw [h, natLimbs_zero]
+
+theorem val_natLimbs (v : Nat) : val (natLimbs v) = v := by
+  induction v using Nat.strong_induction_on with
+  | _ v ih =>
+    by_cases h : v = 0
+    · rw [h, natLimbs_zero]; rfl
+    · rw [natLimbs_pos v h, val_cons, ih (v / B) (Nat.div_lt_self (Nat.pos_of_ne_zero h) (by decide))]
+      exact Nat.mod_add_div v B
+
+theorem Limbs_natLimbs (v : Nat) : Limbs (natLimbs v) := by
+  induction v using Nat.strong_induction_on with
+  | _ v ih =>
+    by_cases h : v = 0
+    · rw [h, natLimbs_zero]; exact Limbs_nil
+    · rw [natLimbs_pos v h]
+      exact Limbs_cons.mpr ⟨Nat.mod_lt _ B_pos, ih (v / B) (Nat.div_lt_self (Nat.pos_of_ne_zero h) (by decide))⟩
+
+/-- normal form of an mpz limb vector: proper limbs, top limb non-zero. -/
+def Norm (l : List Nat) : Prop := Limbs l ∧ ∀ h : l ≠ [], l.getLast h ≠ 0
+
+theorem Norm_natLimbs (v : Nat) : Norm (natLimbs v) := by
+  refine ⟨Limbs_natLimbs v, ?_⟩
+  induction v using Nat.strong_induction_on with
+  | _ v ih =>
+    intro hne
+    have h : v ≠ 0 := fun h0 => hne ((natLimbs_eq_nil v).mpr h0)
+    have hlt : v / B < v := Nat.div_lt_self (Nat.pos_of_ne_zero h) (by decide)
+    simp only [natLimbs_pos v h]
+    by_cases hq : v / B = 0
+    · have hnil : natLimbs (v / B) = [] := (natLimbs_eq_nil _).mpr hq
+      simp only [hnil, List.getLast_singleton]
+      have : v < B := by
+        by_contra hge
+        have := Nat.div_pos (Nat.le_of_not_lt hge) B_pos
+        omega
+      rw [Nat.mod_eq_of_lt this]; exact h
+    · have hne' : natLimbs (v / B) ≠ [] := fun h0 => hq ((natLimbs_eq_nil _).mp h0)
+      rw [List.getLast_cons hne']
+      exact ih (v / B) hlt hne'
+
+/-- a non-empty normal-form vector of `n` limbs is at least `B^(n-1)`. -/
+theorem Norm_ge (l : List Nat) (hn : Norm l) (hne : l ≠ []) : B ^ (l.length - 1) ≤ val l := by
+  have htop := hn.2 hne
+  have hdec := List.dropLast_concat_getLast hne
+  generalize l.getLast hne = top at *
+  generalize l.dropLast = ini at *
+  subst hdec
+  rw [val_append]
+  simp only [List.length_append, List.length_singleton, Nat.add_sub_cancel, val_cons, val_nil, Nat.mul_zero, Nat.add_zero]
+  have : B ^ ini.length * 1 ≤ B ^ ini.length * top := Nat.mul_le_mul_left _ (by omega)
+  omega
+
+theorem Norm_pos (l : List Nat) (hn : Norm l) (hne : l ≠ []) : 0 < val l :=
+  lt_of_lt_of_le (Nat.pow_pos B_pos) (Norm_ge l hn hne)
+
+theorem toLimbs_length : ∀ (n v : Nat), (toLimbs n v).length = n
+  | 0, _ => rfl
+  | n + 1, v => by simp [toLimbs, toLimbs_length n]
+
+theorem Limbs_toLimbs : ∀ (n v : Nat), Limbs (toLimbs n v)
+  | 0, _ => Limbs_nil
+  | n + 1, v => by
+    unfold toLimbs
+    exact Limbs_cons.mpr ⟨Nat.mod_lt _ B_pos, Limbs_toLimbs n _⟩
+
+theorem val_toLimbs : ∀ (n v : Nat), val (toLimbs n v) = v % B ^ n
+  | 0, v => by simp [toLimbs, Nat.mod_one]
+  | n + 1, v => by
+    unfold toLimbs
+    rw [val_cons, val_toLimbs n, pow_succ', Nat.mod_mul, Nat.add_comm]
+
+theorem val_toLimbs_lt (n v : Nat) (h : v < B ^ n) : val (toLimbs n v) = v := by
+  rw [val_toLimbs, Nat.mod_eq_of_lt h]
+
+/-! ### MPN_NORMALIZE -/
+
+theorem val_take_succ (p : List Nat) (n : Nat) :
+    val (p.take (n + 1)) = val (p.take n) + B ^ n * p.getD n 0 := by
+  induction p generalizing n with
+  | nil => simp
+  | cons x xs ih =>
+    cases n with
+    | zero => simp
+    | succ k =>
+      simp only [List.take_succ_cons, val_cons, List.getD_cons_succ]
+      rw [ih k, pow_succ]; ring
+
+theorem mpnNormalize_le (p : List Nat) : ∀ n, mpnNormalize p n ≤ n
+  | 0 => by simp [mpnNormalize]
+  | n + 1 => by
+    unfold mpnNormalize
+    split
+    · exact Nat.le_succ_of_le (mpnNormalize_le p n)
+    · exact le_refl _
+
+/-- the size MPN_NORMALIZE leaves has a non-zero top limb (or is zero). -/
+theorem mpnNormalize_top (p : List Nat) : ∀ n, mpnNormalize p n ≠ 0 → p.getD (mpnNormalize p n - 1) 0 ≠ 0
+  | 0 => by simp [mpnNormalize]
+  | n + 1 => by
+    unfold mpnNormalize
+    split
+    · exact mpnNormalize_top p n
+    · intro _; simpa using ‹¬p.getD n 0 = 0›
+
+/-- MPN_NORMALIZE does not change the value. -/
+theorem mpnNormalize_val (p : List Nat) : ∀ n, val (p.take (mpnNormalize p n)) = val (p.take n)
+  | 0 => by simp [mpnNormalize]
+  | n + 1 => by
+    unfold mpnNormalize
+    split
+    · rename_i h0
+      rw [mpnNormalize_val p n, val_take_succ, h0]; simp
+    · rfl
+
+theorem mpnNormalize_eq_zero (p : List Nat) (n : Nat) (h : mpnNormalize p n = 0) : val (p.take n) = 0 := by
+  rw [← mpnNormalize_val p n, h]; rfl
+
+theorem getD_ne_zero_lt (p : List Nat) (i : Nat) (h : p.getD i 0 ≠ 0) : i < p.length := by
+  by_contra hge
+  rw [List.getD_eq_getElem?_getD, List.getElem?_eq_none (by omega)] at h
+  exact h rfl
+
+/-- whatever vector `rp`, the pair `(rp, MPN_NORMALIZE (rp, n))` is a well-formed result. -/
+theorem wf_normalize (rp : List Nat) (n : Nat) : (Res.mk rp (mpnNormalize rp n)).wf = true := by
+  unfold Res.wf
+  by_cases h0 : mpnNormalize rp n = 0
+  · simp [h0]
+  · have ht := mpnNormalize_top rp n h0
+    have hl := getD_ne_zero_lt rp _ ht
+    simp only [Bool.or_eq_true, beq_iff_eq, Bool.and_eq_true, decide_eq_true_eq, bne_iff_ne, ne_eq]
+    exact Or.inr ⟨by omega, ht⟩
+
+
+/-! ### the early `b^1 mod m` path of mpz_powm -/
+
+theorem neg_emod_nat (b m : Nat) (hm : 0 < m) :
+    (-(b : Int)) % (m : Int) = if b % m = 0 then 0 else ((m - b % m : Nat) : Int) := by
+  have hb : (b : Int) = (m : Int) * ((b / m : Nat) : Int) + ((b % m : Nat) : Int) := by
+    exact_mod_cast (Nat.div_add_mod b m).symm
+  have hr : b % m < m := Nat.mod_lt _ hm
+  generalize b / m = q at *
+  generalize b % m = r at *
+  by_cases h0 : r = 0
+  · subst h0
+    simp only [if_true, hb, Nat.cast_zero, add_zero]
+    rw [← mul_neg, Int.mul_emod_right]
+  · simp only [h0, if_false]
+    have e : -(b : Int) = ((m - r : Nat) : Int) + (m : Int) * (-(q : Int) - 1) := by
+      rw [hb, Nat.cast_sub (le_of_lt hr)]; ring
+    rw [e, Int.add_mul_emod_self_left]
+    apply Int.emod_eq_of_lt
+    · exact Int.natCast_nonneg _
+    · exact_mod_cast (by omega : m - r < m)
+
+theorem val_take_pos_of_getD (p : List Nat) (i : Nat) (h : p.getD i 0 ≠ 0) : 0 < val (p.take (i + 1)) := by
+  rw [val_take_succ]
+  have : 0 < B ^ i * p.getD i 0 := Nat.mul_pos (Nat.pow_pos B_pos) (Nat.pos_of_ne_zero h)
+  omega
+
+theorem take_length_eq (p : List Nat) (n : Nat) (h : p.length = n) : p.take n = p := by
+  rw [← h]; exact List.take_length
+
+/-- value of `{rp, MPN_NORMALIZE (rp, n)}` when `rp` has exactly `n` limbs. -/
+theorem normalize_val_full (rp : List Nat) (n : Nat) (h : rp.length = n) :
+    val (rp.take (mpnNormalize rp n)) = val rp := by
+  rw [mpnNormalize_val, take_length_eq rp n h]
+
+/-- powm.c:118-151.  For a base `{bp,bn}` and modulus `{mp,n}` in normal form (both non-zero) the early
+    path returns a well-formed object whose value is `(±b) mod m` in `[0,m)`. -/
+theorem powmE1_correct (bneg : Bool) (bp mp : List Nat) (hb : Norm bp) (hbne : bp ≠ []) (hm : Norm mp)
+    (hmne : mp ≠ []) :
+    (Res.mk (powmE1 bneg bp mp).1 (powmE1 bneg bp mp).2).wf = true ∧
+    ((val ((powmE1 bneg bp mp).1.take (powmE1 bneg bp mp).2) : Nat) : Int)
+      = (if bneg then -(val bp : Int) else (val bp : Int)) % (val mp : Int) := by
+  have hmpos : 0 < val mp := Norm_pos mp hm hmne
+  have hbpos : 0 < val bp := Norm_pos bp hb hbne
+  have hmlt := val_lt mp hm.1
+  unfold powmE1
+  simp only
+  by_cases hge : bp.length ≥ mp.length
+  · simp only [hge, if_true]
+    -- the remainder vector
+    have hr0 : val bp % val mp < B ^ mp.length := lt_trans (Nat.mod_lt _ hmpos) hmlt
+    have hrl : (toLimbs mp.length (val bp % val mp)).length = mp.length := toLimbs_length _ _
+    have hrv : val (toLimbs mp.length (val bp % val mp)) = val bp % val mp := val_toLimbs_lt _ _ hr0
+    have hrL := Limbs_toLimbs mp.length (val bp % val mp)
+    generalize toLimbs mp.length (val bp % val mp) = rp at *
+    have hnv := normalize_val_full rp mp.length hrl
+    by_cases hc : (bneg && mpnNormalize rp mp.length != 0) = true
+    · simp only [hc, if_true]
+      simp only [Bool.and_eq_true, bne_iff_ne, ne_eq] at hc
+      obtain ⟨hneg, hrn⟩ := hc
+      have hle : val (rp.take (mpnNormalize rp mp.length)) ≤ val mp := by
+        rw [hnv, hrv]; exact le_of_lt (Nat.mod_lt _ hmpos)
+      have hlen : (rp.take (mpnNormalize rp mp.length)).length ≤ mp.length := by
+        rw [List.length_take]; exact le_trans (Nat.min_le_left _ _) (mpnNormalize_le _ _)
+      obtain ⟨sv, sl, sn⟩ := sub_exact mp _ hm.1 (Limbs_take hrL _) hlen hle
+      refine ⟨wf_normalize _ _, ?_⟩
+      rw [normalize_val_full _ _ sn, sv, hnv, hrv, hneg]
+      simp only [if_true]
+      rw [neg_emod_nat _ _ hmpos]
+      have hpos : 0 < val (rp.take (mpnNormalize rp mp.length)) := by
+        have := val_take_pos_of_getD rp _ (mpnNormalize_top rp mp.length hrn)
+        have e : mpnNormalize rp mp.length - 1 + 1 = mpnNormalize rp mp.length := by omega
+        rwa [e] at this
+      rw [hnv, hrv] at hpos
+      simp only [Nat.ne_of_gt hpos, if_false]
+    · simp only [hc, Bool.false_eq_true, if_false]
+      refine ⟨wf_normalize _ _, ?_⟩
+      rw [hnv, hrv]
+      cases bneg with
+      | false => simp only [Bool.false_eq_true, if_false]; exact Int.natCast_mod _ _
+      | true =>
+        simp only [Bool.true_and, bne_iff_ne, ne_eq, Decidable.not_not] at hc
+        have hz := mpnNormalize_eq_zero rp mp.length hc
+        rw [take_length_eq rp _ hrl, hrv] at hz
+        simp only [if_true]
+        rw [neg_emod_nat _ _ hmpos, hz]; simp
+  · simp only [hge, if_false]
+    have hlt : bp.length < mp.length := by omega
+    -- a shorter base in normal form is smaller than the modulus
+    have hbm : val bp < val mp := by
+      have h1 := val_lt bp hb.1
+      have h2 := Norm_ge mp hm hmne
+      have h3 : B ^ bp.length ≤ B ^ (mp.length - 1) := Nat.pow_le_pow_right B_pos (by omega)
+      omega
+    cases bneg with
+    | true =>
+      simp only [if_true]
+      obtain ⟨sv, sl, sn⟩ := sub_exact mp bp hm.1 hb.1 (le_of_lt hlt) (le_of_lt hbm)
+      refine ⟨wf_normalize _ _, ?_⟩
+      rw [normalize_val_full _ _ sn, sv, neg_emod_nat _ _ hmpos, Nat.mod_eq_of_lt hbm]
+      simp only [Nat.ne_of_gt hbpos, if_false]
+    | false =>
+      simp only [Bool.false_eq_true, if_false]
+      have hbl : 0 < bp.length := List.length_pos_of_ne_nil hbne
+      refine ⟨?_, ?_⟩
+      · unfold Res.wf
+        have hlast : (bp ++ zeros (mp.length - bp.length)).getD (bp.length - 1) 0 = bp.getLast hbne := by
+          rw [List.getD_eq_getElem?_getD, List.getElem?_append_left (by omega), List.getLast_eq_getElem]
+          simp [List.getElem?_eq_getElem (show bp.length - 1 < bp.length by omega)]
+        simp only [Bool.or_eq_true, beq_iff_eq, Bool.and_eq_true, decide_eq_true_eq, bne_iff_ne, ne_eq]
+        refine Or.inr ⟨by simp, ?_⟩
+        rw [hlast]; exact hb.2 hbne
+      · rw [List.take_left' rfl]
+        rw [Int.emod_eq_of_lt (Int.natCast_nonneg _) (by exact_mod_cast hbm)]
+
 end Mpir.Powm
